@@ -39,12 +39,13 @@ def Determined (d : Desc N) (coordArg : Option N) (c : N) : Prop :=
     (c = d.dim ∧ ∃ k ∈ d.coords, k.name = d.dim)))
 
 /-- whatever `save_xye` accepts is one-dimensional, has variances, no masks, at least one
-coordinate, a *determined* coordinate that exists, is one-dimensional and is not bin edges -/
+coordinate, a *determined* coordinate that exists, is one-dimensional, is not bin edges and has
+a numeric dtype -/
 theorem refuses_unrepresentable (d : Desc N) (coordArg : Option N) (c : N)
     (h : saveCheck d coordArg = .ok c) :
     d.hasVariances = true ∧ d.ndim = 1 ∧ d.hasMasks = false ∧ d.coords ≠ [] ∧
     Determined d coordArg c ∧
-    ∃ k ∈ d.coords, k.name = c ∧ k.ndim ≠ 0 ∧ k.edges = false := by
+    ∃ k ∈ d.coords, k.name = c ∧ k.ndim ≠ 0 ∧ k.edges = false ∧ k.numeric = true := by
   unfold saveCheck at h
   split at h; · cases h
   split at h; · cases h
@@ -57,6 +58,8 @@ theorem refuses_unrepresentable (d : Desc N) (coordArg : Option N) (c : N)
   · cases h
   · cases h
   · rename_i hie
+    split at h; · cases h
+    rename_i hnum
     injection h with h; subst h
     refine ⟨by simpa using hv, by simpa using hn, by simpa using hm, by simpa using hc, ?_, ?_⟩
     · cases coordArg with
@@ -91,12 +94,14 @@ theorem refuses_unrepresentable (d : Desc N) (coordArg : Option N) (c : N)
           injection hie with hie
           have hmem := List.mem_of_find?_eq_some hk
           have hname := List.find?_some hk
-          exact ⟨k, hmem, by simpa using hname, hnd, hie⟩
+          rw [hk] at hnum
+          exact ⟨k, hmem, by simpa using hname, hnd, hie, by simpa using hnum⟩
 
-example : saveCheck (⟨true, 1, false, 7, [⟨3, 1, false⟩, ⟨7, 1, false⟩]⟩ : Desc Nat) none = .ok 7 := rfl
-example : saveCheck (⟨true, 1, false, 7, [⟨3, 1, false⟩, ⟨4, 1, false⟩]⟩ : Desc Nat) none = .error .value := rfl
-example : saveCheck (⟨true, 1, false, 7, [⟨3, 1, false⟩, ⟨4, 1, false⟩]⟩ : Desc Nat) (some 4) = .ok 4 := rfl
-example : saveCheck (⟨true, 1, false, 7, [⟨7, 1, true⟩]⟩ : Desc Nat) none = .error .coord := rfl
+example : saveCheck (⟨true, 1, false, 7, [⟨3, 1, false, true⟩, ⟨7, 1, false, true⟩]⟩ : Desc Nat) none = .ok 7 := rfl
+example : saveCheck (⟨true, 1, false, 7, [⟨3, 1, false, true⟩, ⟨4, 1, false, true⟩]⟩ : Desc Nat) none = .error .value := rfl
+example : saveCheck (⟨true, 1, false, 7, [⟨3, 1, false, true⟩, ⟨4, 1, false, true⟩]⟩ : Desc Nat) (some 4) = .ok 4 := rfl
+example : saveCheck (⟨true, 1, false, 7, [⟨7, 1, true, true⟩]⟩ : Desc Nat) none = .error .coord := rfl
+example : saveCheck (⟨true, 1, false, 7, [⟨7, 1, false, false⟩]⟩ : Desc Nat) none = .error .type := rfl
 
 end refusals
 
